@@ -250,9 +250,60 @@ package core
 //@ func WritePreimages
 //@   keeps big
 //@ func HeaderChain.GetHeader
+//@   trusted
+//@   ensures result != nil ==> result.Number != nil && L(big(result.Number)) == number && (number == 0 ==> hash == canon[0])
 //@   keeps big
 //@ func BlockChain.GetHeaderByNumber
 //@   keeps big
+
+// ---- header-only import (C02, C03) ----------------------------------------------------------------
+// Same fork choice and number-index maintenance as for full blocks, on HeaderChain.WriteHeader.
+// tdknown[h]: a total difficulty is recorded for h. Trusted observers/instrumentation of the
+// database accessors; GetHeader returns a header of the requested height, and the only header
+// retrievable at height 0 is the canonical genesis.
+//@ ghost tdknown (Array (Array (_ BitVec 64) (_ BitVec 8)) Bool)
+// canontop: the number index holds entries for exactly the heights 0..canontop (no gaps).
+//@ ghost canontop (_ BitVec 64)
+
+//@ func HeaderChain.GetTd
+//@   trusted
+//@   ensures (result != nil) == tdknown[hash] && (result != nil ==> big(result) == totaldiff[hash] && notconst(result))
+//@   assigns nothing
+
+//@ func GetCanonicalHash
+//@   trusted
+//@   ensures result == canon[number]
+//@   assigns nothing
+
+//@ func DeleteCanonicalHash
+//@   trusted
+//@   ensures canon == store(old(canon), number, zerohash)
+//@   assigns canon
+
+//@ func WriteHeader
+//@   keeps big
+//@ func WriteHeadHeaderHash
+//@   keeps big
+
+//@ func HeaderChain.WriteHeader
+//@   requires hc != nil && header != nil && header.Number != nil && header.Difficulty != nil && header.Version >= 1 && header.Version <= 4
+//@   requires tdknown[hc.currentHeaderHash] && big(header.Difficulty) >= 0
+//@   requires (forall n uint64 :: n > canontop ==> canon[n] == zerohash) && (forall n uint64 :: n <= canontop ==> canon[n] != zerohash)
+//@   requires canon[18446744073709551615] == zerohash && L(big(header.Number)) >= 1 && L(big(header.Number)) < 9223372036854775808 && big(header.Number) == U(L(big(header.Number)))
+//@   let ext = old(totaldiff[header.ParentHash]) + old(big(header.Difficulty))
+//@   let loc = old(totaldiff[hc.currentHeaderHash])
+//@   ensures[C02] @td err == nil ==> totaldiff[hdrhash(header)] == ext
+//@   ensures[C02] @heavier err == nil && ext > loc ==> status == CanonStatTy
+//@   ensures[C02] @side err == nil && status == SideStatTy ==> ext <= loc && hc.currentHeaderHash == old(hc.currentHeaderHash)
+//@   ensures[C02] @canon_notlighter err == nil && status == CanonStatTy ==> ext >= loc
+//@   ensures[C03] @canonhead err == nil && status == CanonStatTy ==> hc.currentHeaderHash == hdrhash(header)
+//@   ensures[C03] @canonindex err == nil && status == CanonStatTy ==> canon[L(old(big(header.Number)))] == hdrhash(header)
+//@   ensures[C03] @above err == nil && status == CanonStatTy ==> forall n uint64 :: n > L(old(big(header.Number))) ==> canon[n] == zerohash
+//@   ensures[C03] @sideindex err == nil && status == SideStatTy ==> canon == old(canon)
+//@   loop 1 invariant[C03] i > number && (forall n uint64 :: number < n && n < i ==> canon[n] == zerohash) && (forall n uint64 :: n >= i ==> canon[n] == old(canon[n]))
+//@   loop 2 invariant[C03] headNumber < number && (forall n uint64 :: n > number ==> canon[n] == zerohash)
+//@   loop 2 invariant[C03] headHeader != nil ==> headHeader.Number != nil && L(big(headHeader.Number)) == headNumber
+//@   loop 2 invariant[C03] headHeader != nil && headNumber == 0 ==> headHash == canon[0]
 
 // ---- transaction pool admission (C15) -----------------------------------------------------------
 // A transaction that validateTx admits is within the block gas limit, non-negative, signed,
